@@ -1,7 +1,626 @@
 package main
 
-// tryReplay attempts to turn a solver counterexample into a concrete failing
-// input on the real code. Returns true when a failing input was demonstrated.
-func tryReplay(verif string, ob *Obligation, rp map[string]any) bool {
+// Replay: turning a failed obligation into a failing input of the REAL function.
+//
+// For functions whose parameters can be concretised from a solver model (integers, booleans,
+// short strings, interface / reflect.Value arguments holding those, structs of those) a failed
+// obligation is replayed in three steps:
+//   1. the obligation's query (path condition and negated goal; the quantifier-free relaxation
+//      when the full query was not decided) is re-run with get-value requests for the terms
+//      that describe the inputs, giving concrete arguments;
+//   2. a generated in-package Go test (injected with `go test -overlay`, nothing is written
+//      under /repo) calls the real function with those arguments and prints what it returned,
+//      or that it panicked;
+//   3. safety obligations are confirmed by the observed panic; postconditions are confirmed by
+//      the solver: the ensures clause, with the arguments and the OBSERVED results pinned, must
+//      be unsatisfiable.
+// Only a confirmed replay drops the "no-failing-input-found" suffix.
+
+import (
+	"encoding/json"
+	"fmt"
+	"go/types"
+	"math/big"
+	"os"
+	"os/exec"
+	"path/filepath"
+	"regexp"
+	"sort"
+	"strconv"
+	"strings"
+	"time"
+
+	"golang.org/x/tools/go/ssa"
+)
+
+type replayParam struct {
+	Name string
+	Ty   types.Type
+	T    Term
+}
+
+type ReplayInfo struct {
+	Sel      string
+	PkgPath  string
+	PkgName  string
+	PkgDir   string
+	Recv     *replayParam
+	RecvPtr  bool
+	FuncName string
+	Params   []replayParam
+	Results  []replayParam // T = constant standing for the observed result
+	EntryPC  []Term
+	Clauses  map[string]Term
+	Decls    *Decls
+	Panics   []string
+	world    *World
+	ifaceP   map[string]types.Type
+}
+
+// replayable: can values of this type be read off a model and written as a Go literal?
+func (w *World) replayable(t types.Type, d *Decls, depth int) bool {
+	if depth > 3 {
+		return false
+	}
+	t = types.Unalias(t)
+	switch w.sortOf(t, d) {
+	case SInt:
+		_, basic := t.Underlying().(*types.Basic)
+		return basic
+	case SBool, SStr:
+		_, basic := t.Underlying().(*types.Basic)
+		return basic
+	case SVal:
+		if it, ok := t.Underlying().(*types.Interface); ok && it.NumMethods() == 0 {
+			return true
+		}
+		return false
+	case "RV":
+		return isNamed(t, "reflect", "Value")
+	}
+	if st, ok := t.Underlying().(*types.Struct); ok {
+		if _, named := t.(*types.Named); !named {
+			return false
+		}
+		for i := 0; i < st.NumFields(); i++ {
+			if !w.replayable(st.Field(i).Type(), d, depth+1) {
+				return false
+			}
+		}
+		return true
+	}
 	return false
 }
+
+// prepareReplay is called by verifyFunc once the entry state exists.
+func (ex *Exec) prepareReplay(st *State, fn *ssa.Function, args []Value) *ReplayInfo {
+	if fn.Parent() != nil || fn.Synthetic != "" || fn.Pkg == nil || len(fn.FreeVars) > 0 {
+		return nil
+	}
+	ri := &ReplayInfo{Sel: ex.sel, PkgPath: fn.Pkg.Pkg.Path(), PkgName: fn.Pkg.Pkg.Name(), FuncName: fn.Name(), Clauses: map[string]Term{}, Decls: ex.d, world: ex.w}
+	ri.PkgDir = filepath.Join(ex.w.repoDir, strings.TrimPrefix(strings.TrimPrefix(ri.PkgPath, modPath), "/"))
+	params := fn.Params
+	for i, p := range params {
+		t, ok := args[i].(Term)
+		if !ok {
+			return nil
+		}
+		pt := p.Type()
+		rp := replayParam{Name: p.Name(), Ty: pt, T: t}
+		if i == 0 && fn.Signature.Recv() != nil {
+			if ptr, isPtr := types.Unalias(pt).Underlying().(*types.Pointer); isPtr {
+				_ = ptr
+				return nil // pointer receivers need heap concretisation: not replayed
+			}
+			if !ex.w.replayable(pt, ex.d, 0) {
+				return nil
+			}
+			ri.Recv = &rp
+			continue
+		}
+		if !ex.w.replayable(pt, ex.d, 0) {
+			return nil
+		}
+		ri.Params = append(ri.Params, rp)
+	}
+	res := fn.Signature.Results()
+	for i := 0; i < res.Len(); i++ {
+		rt := res.At(i).Type()
+		srt := ex.w.sortOf(rt, ex.d)
+		if srt != SInt && srt != SBool && srt != SStr {
+			return nil
+		}
+		if _, basic := types.Unalias(rt).Underlying().(*types.Basic); !basic {
+			return nil
+		}
+		name := fmt.Sprintf("replay_res%d", i)
+		ex.d.declConst(name, srt)
+		ri.Results = append(ri.Results, replayParam{Name: res.At(i).Name(), Ty: rt, T: mk(srt, name)})
+	}
+	ri.EntryPC = append([]Term(nil), st.pc...)
+	if ex.con != nil {
+		ri.Panics = ex.con.Panics
+		c := &SpecCtx{ex: ex, st: st, old: st, binds: map[string]TT{}, bound: map[string]string{}, pkg: pkgOf(fn)}
+		for n, v := range ex.entryBinds {
+			c.binds[n] = v
+		}
+		for i, r := range ri.Results {
+			tt := TT{T: r.T, Ty: r.Ty}
+			c.binds[fmt.Sprintf("result%d", i)] = tt
+			if i == 0 {
+				c.binds["result"] = tt
+			}
+			if r.Name != "" && r.Name != "_" {
+				c.binds[r.Name] = tt
+			}
+		}
+		for i := range ex.con.Ensures {
+			cl := &ex.con.Ensures[i]
+			func() {
+				defer func() { recover() }()
+				c.clause = cl
+				saved := ex.specErrors
+				ex.specErrors = map[string]bool{}
+				g := c.Formula(cl.Text)
+				ex.specErrors = saved
+				ri.Clauses[cl.Label] = g
+			}()
+		}
+	}
+	return ri
+}
+
+// ---- descriptors ---------------------------------------------------------------------------
+
+type descr struct {
+	term string // SMT term requested with get-value
+	key  string
+}
+
+const replayStrMax = 12
+
+func strDescr(base, key string, out *[]descr) {
+	*out = append(*out, descr{"(str_len " + base + ")", key + ".len"})
+	for i := 0; i < replayStrMax; i++ {
+		*out = append(*out, descr{fmt.Sprintf("(str_at %s %d)", base, i), fmt.Sprintf("%s.at%d", key, i)})
+	}
+}
+
+func valDescr(base, key string, out *[]descr) {
+	*out = append(*out, descr{"(kindof (typeof " + base + "))", key + ".kind"}, descr{"(pl_int " + base + ")", key + ".int"}, descr{"(pl_bool " + base + ")", key + ".bool"})
+	strDescr("(pl_str "+base+")", key+".str", out)
+}
+
+func (ri *ReplayInfo) describe(p replayParam, key string, term string, out *[]descr) {
+	w := ri.world
+	t := types.Unalias(p.Ty)
+	switch w.sortOf(t, ri.Decls) {
+	case SInt, SBool:
+		*out = append(*out, descr{term, key})
+		return
+	case SStr:
+		strDescr(term, key, out)
+		return
+	case SVal:
+		valDescr(term, key, out)
+		return
+	case "RV":
+		*out = append(*out, descr{"(rv_valid " + term + ")", key + ".valid"}, descr{"(rv_iface " + term + ")", key + ".iface"})
+		valDescr("(rv_val "+term+")", key+".val", out)
+		return
+	}
+	if st, ok := t.Underlying().(*types.Struct); ok {
+		for i := 0; i < st.NumFields(); i++ {
+			f := st.Field(i)
+			ri.describe(replayParam{Name: f.Name(), Ty: f.Type()}, key+"."+f.Name(), "("+w.fieldSel(t, i)+" "+term+")", out)
+		}
+	}
+}
+
+// ---- concretisation ------------------------------------------------------------------------
+
+type concrete struct {
+	goExpr string
+	pins   []string // SMT assertions fixing the described terms
+}
+
+func goStringLit(bs []byte) string {
+	var b strings.Builder
+	b.WriteByte('"')
+	for _, c := range bs {
+		if c >= 32 && c < 127 && c != '"' && c != '\\' {
+			b.WriteByte(c)
+		} else {
+			fmt.Fprintf(&b, "\\x%02x", c)
+		}
+	}
+	b.WriteByte('"')
+	return b.String()
+}
+
+func smtInt(n *big.Int) string {
+	if n.Sign() < 0 {
+		return "(- " + new(big.Int).Neg(n).String() + ")"
+	}
+	return n.String()
+}
+
+func parseBig(s string) (*big.Int, bool) {
+	n, ok := new(big.Int).SetString(strings.TrimSpace(s), 10)
+	return n, ok
+}
+
+func (ri *ReplayInfo) strFrom(vals map[string]string, key, term string) (string, []string, bool) {
+	n, err := strconv.ParseInt(vals[key+".len"], 10, 64)
+	if err != nil || n < 0 || n > replayStrMax {
+		return "", nil, false
+	}
+	bs := make([]byte, n)
+	pins := []string{fmt.Sprintf("(= (str_len %s) %d)", term, n)}
+	for i := int64(0); i < n; i++ {
+		c, err := strconv.ParseInt(vals[fmt.Sprintf("%s.at%d", key, i)], 10, 64)
+		if err != nil || c < 0 || c > 255 {
+			c = 'a'
+		}
+		bs[i] = byte(c)
+		pins = append(pins, fmt.Sprintf("(= (str_at %s %d) %d)", term, i, c))
+	}
+	return goStringLit(bs), pins, true
+}
+
+var kindGoType = map[int64]string{1: "bool", 2: "int", 3: "int8", 4: "int16", 5: "int32", 6: "int64", 7: "uint", 8: "uint8", 9: "uint16", 10: "uint32", 11: "uint64", 12: "uintptr", 24: "string"}
+
+func intFits(goType string, n *big.Int) bool {
+	rng := func(lo, hi string) bool {
+		l, _ := parseBig(lo)
+		h, _ := parseBig(hi)
+		return n.Cmp(l) >= 0 && n.Cmp(h) <= 0
+	}
+	switch goType {
+	case "int8":
+		return rng("-128", "127")
+	case "int16":
+		return rng("-32768", "32767")
+	case "int32", "rune":
+		return rng("-2147483648", "2147483647")
+	case "uint8", "byte":
+		return rng("0", "255")
+	case "uint16":
+		return rng("0", "65535")
+	case "uint32":
+		return rng("0", "4294967295")
+	case "uint", "uint64", "uintptr":
+		return rng("0", "18446744073709551615")
+	}
+	return rng("-9223372036854775808", "9223372036854775807")
+}
+
+func (ri *ReplayInfo) valFrom(vals map[string]string, key, term string) (string, []string, bool) {
+	k, err := strconv.ParseInt(vals[key+".kind"], 10, 64)
+	if err != nil {
+		return "", nil, false
+	}
+	if k == 0 {
+		return "nil", []string{"(= " + term + " nil_val)"}, true
+	}
+	gt, ok := kindGoType[k]
+	if !ok {
+		return "", nil, false
+	}
+	pins := []string{fmt.Sprintf("(= (kindof (typeof %s)) %d)", term, k)}
+	switch {
+	case k == 1:
+		b := vals[key+".bool"] == "true"
+		pins = append(pins, fmt.Sprintf("(= (pl_bool %s) %v)", term, b))
+		return fmt.Sprintf("any(%v)", b), pins, true
+	case k == 24:
+		s, sp, ok := ri.strFrom(vals, key+".str", "(pl_str "+term+")")
+		if !ok {
+			return "", nil, false
+		}
+		return "any(" + s + ")", append(pins, sp...), true
+	default:
+		n, ok := parseBig(vals[key+".int"])
+		if !ok || !intFits(gt, n) {
+			return "", nil, false
+		}
+		pins = append(pins, fmt.Sprintf("(= (pl_int %s) %s)", term, smtInt(n)))
+		return fmt.Sprintf("any(%s(%s))", gt, n.String()), pins, true
+	}
+}
+
+func (ri *ReplayInfo) concretise(p replayParam, key, term string, vals map[string]string, qual types.Qualifier) (concrete, bool) {
+	w := ri.world
+	t := types.Unalias(p.Ty)
+	ts := types.TypeString(t, qual)
+	switch w.sortOf(t, ri.Decls) {
+	case SInt:
+		n, ok := parseBig(vals[key])
+		if !ok {
+			return concrete{}, false
+		}
+		if b, ok := t.Underlying().(*types.Basic); ok && !intFits(b.Name(), n) {
+			return concrete{}, false
+		}
+		return concrete{fmt.Sprintf("%s(%s)", ts, n.String()), []string{fmt.Sprintf("(= %s %s)", term, smtInt(n))}}, true
+	case SBool:
+		b := vals[key] == "true"
+		return concrete{fmt.Sprintf("%s(%v)", ts, b), []string{fmt.Sprintf("(= %s %v)", term, b)}}, true
+	case SStr:
+		s, pins, ok := ri.strFrom(vals, key, term)
+		return concrete{ts + "(" + s + ")", pins}, ok
+	case SVal:
+		s, pins, ok := ri.valFrom(vals, key, term)
+		return concrete{s, pins}, ok
+	case "RV":
+		if vals[key+".iface"] == "true" {
+			return concrete{}, false
+		}
+		if vals[key+".valid"] != "true" {
+			return concrete{"reflect.Value{}", []string{"(not (rv_valid " + term + "))"}}, true
+		}
+		s, pins, ok := ri.valFrom(vals, key+".val", "(rv_val "+term+")")
+		if !ok || s == "nil" {
+			return concrete{}, false
+		}
+		pins = append(pins, "(rv_valid "+term+")", "(not (rv_iface "+term+"))")
+		return concrete{"reflect.ValueOf(" + s + ")", pins}, true
+	}
+	if st, ok := t.Underlying().(*types.Struct); ok {
+		var fields []string
+		var pins []string
+		for i := 0; i < st.NumFields(); i++ {
+			f := st.Field(i)
+			c, ok := ri.concretise(replayParam{Name: f.Name(), Ty: f.Type()}, key+"."+f.Name(), "("+w.fieldSel(t, i)+" "+term+")", vals, qual)
+			if !ok {
+				return concrete{}, false
+			}
+			fields = append(fields, f.Name()+": "+c.goExpr)
+			pins = append(pins, c.pins...)
+		}
+		return concrete{ts + "{" + strings.Join(fields, ", ") + "}", pins}, true
+	}
+	return concrete{}, false
+}
+
+// ---- driver --------------------------------------------------------------------------------
+
+var getValueLine = regexp.MustCompile(`^\(\((.*)\)\)$`)
+
+func parseValue(line, term string) (string, bool) {
+	m := getValueLine.FindStringSubmatch(strings.TrimSpace(line))
+	if m == nil || !strings.HasPrefix(m[1], term+" ") {
+		return "", false
+	}
+	v := strings.TrimSpace(m[1][len(term)+1:])
+	if strings.HasPrefix(v, "(- ") {
+		v = "-" + strings.TrimSuffix(strings.TrimPrefix(v, "(- "), ")")
+	}
+	return v, true
+}
+
+var replayBudget = 8
+
+// tryReplay attempts to turn a solver counterexample into a concrete failing input on the real
+// code. Returns true when a failing input was demonstrated.
+func tryReplay(verif string, ob *Obligation, rp map[string]any) bool {
+	ri := ob.Replay
+	if ri == nil || ob.Cover {
+		return false
+	}
+	switch ob.Kind {
+	case "post", "bounds", "nil", "assert", "div", "cmp", "make", "panic", "pre":
+	default:
+		return false
+	}
+	if replayBudget <= 0 {
+		rp["replay"] = "not attempted (replay budget of this run used up)"
+		return false
+	}
+	replayBudget--
+	log := []string{}
+	defer func() { rp["replay_log"] = log }()
+
+	// 1. concrete inputs
+	var ds []descr
+	all := ri.Params
+	if ri.Recv != nil {
+		all = append([]replayParam{*ri.Recv}, all...)
+	}
+	for _, p := range all {
+		ri.describe(p, p.Name, p.T.S, &ds)
+	}
+	query := ob.smtText(true)
+	if ob.Status != "sat" {
+		query = stripQuantified(query)
+	}
+	query = strings.Replace(query, "(get-model)", "", -1)
+	var b strings.Builder
+	b.WriteString(query)
+	if !strings.Contains(query, "(check-sat)") {
+		b.WriteString("\n(check-sat)\n")
+	}
+	for _, d := range ds {
+		fmt.Fprintf(&b, "(get-value (%s))\n", d.term)
+	}
+	dir, err := os.MkdirTemp("", "govc-replay-")
+	if err != nil {
+		return false
+	}
+	defer os.RemoveAll(dir)
+	q1 := filepath.Join(dir, "inputs.smt2")
+	os.WriteFile(q1, []byte(finalizeSMT(b.String())), 0o644)
+	st, out, _ := runSolver(solvers[0], q1, 10*time.Second)
+	if st != "sat" {
+		log = append(log, "no model for the inputs: solver said "+st)
+		return false
+	}
+	vals := map[string]string{}
+	lines := strings.Split(out, "\n")
+	for _, d := range ds {
+		for _, l := range lines {
+			if v, ok := parseValue(l, d.term); ok {
+				vals[d.key] = v
+				break
+			}
+		}
+	}
+	imports := map[string]string{"fmt": "fmt", "testing": "testing", "reflect": "reflect"}
+	qual := func(p *types.Package) string {
+		if p.Path() == ri.PkgPath {
+			return ""
+		}
+		imports[p.Path()] = p.Name()
+		return p.Name()
+	}
+	var goArgs []string
+	var pins []string
+	recvExpr := ""
+	for _, p := range all {
+		c, ok := ri.concretise(p, p.Name, p.T.S, vals, qual)
+		if !ok {
+			var seen []string
+			for k, v := range vals {
+				if strings.HasPrefix(k, p.Name) && !strings.Contains(k, ".at") {
+					seen = append(seen, k+"="+v)
+				}
+			}
+			sort.Strings(seen)
+			log = append(log, "argument "+p.Name+" could not be concretised from the model: "+strings.Join(seen, " "))
+			return false
+		}
+		pins = append(pins, c.pins...)
+		if ri.Recv != nil && p.Name == ri.Recv.Name && recvExpr == "" {
+			recvExpr = c.goExpr
+			continue
+		}
+		goArgs = append(goArgs, c.goExpr)
+	}
+	call := ri.FuncName + "(" + strings.Join(goArgs, ", ") + ")"
+	if ri.Recv != nil {
+		call = "(" + recvExpr + ")." + call
+	}
+	rp["replay_call"] = call
+
+	// 2. run the real function
+	var src strings.Builder
+	fmt.Fprintf(&src, "package %s\n\nimport (\n", ri.PkgName)
+	var ips []string
+	for p := range imports {
+		ips = append(ips, p)
+	}
+	sort.Strings(ips)
+	for _, p := range ips {
+		fmt.Fprintf(&src, "\t%q\n", p)
+	}
+	src.WriteString(")\n\nvar _ = reflect.ValueOf\n\nfunc TestGovcReplay(t *testing.T) {\n\tdefer func() {\n\t\tif r := recover(); r != nil {\n\t\t\tfmt.Printf(\"GOVC-PANIC %T %v\\n\", r, r)\n\t\t}\n\t}()\n")
+	var lhs []string
+	for i := range ri.Results {
+		lhs = append(lhs, fmt.Sprintf("r%d", i))
+	}
+	if len(lhs) > 0 {
+		fmt.Fprintf(&src, "\t%s := %s\n", strings.Join(lhs, ", "), call)
+		for i := range ri.Results {
+			fmt.Fprintf(&src, "\tfmt.Printf(\"GOVC-RESULT %d %%q\\n\", fmt.Sprint(r%d))\n", i, i)
+		}
+	} else {
+		fmt.Fprintf(&src, "\t%s\n\tfmt.Println(\"GOVC-RETURNED\")\n", call)
+	}
+	src.WriteString("}\n")
+	testPath := filepath.Join(ri.PkgDir, "zz_govc_replay_test.go")
+	realPath := filepath.Join(dir, "replay_test.go")
+	os.WriteFile(realPath, []byte(src.String()), 0o644)
+	ov, _ := json.Marshal(map[string]any{"Replace": map[string]string{testPath: realPath}})
+	ovPath := filepath.Join(dir, "overlay.json")
+	os.WriteFile(ovPath, ov, 0o644)
+	cmd := exec.Command("go", "test", "-overlay", ovPath, "-vet=off", "-v", "-count=1", "-timeout", "60s", "-run", "^TestGovcReplay$", ".")
+	cmd.Dir = ri.PkgDir
+	cmd.Env = append(os.Environ(), "GOFLAGS=-mod=mod", "GOPROXY=off", "GOSUMDB=off", "GOTOOLCHAIN=local")
+	outB, _ := cmd.CombinedOutput()
+	rp["replay_test"] = src.String()
+	rp["replay_output"] = firstLines(string(outB), 12)
+	panicked, observed := "", map[int]string{}
+	for _, l := range strings.Split(string(outB), "\n") {
+		if strings.HasPrefix(l, "GOVC-PANIC ") {
+			panicked = strings.TrimPrefix(l, "GOVC-PANIC ")
+		}
+		if strings.HasPrefix(l, "GOVC-RESULT ") {
+			fs := strings.SplitN(strings.TrimPrefix(l, "GOVC-RESULT "), " ", 2)
+			if len(fs) == 2 {
+				i, _ := strconv.Atoi(fs[0])
+				if s, err := strconv.Unquote(fs[1]); err == nil {
+					observed[i] = s
+				}
+			}
+		}
+	}
+	if panicked != "" {
+		for _, p := range ri.Panics {
+			if strings.HasPrefix(panicked, p+" ") {
+				log = append(log, "the function raised the declared panic "+p)
+				return false
+			}
+		}
+		log = append(log, "REAL CODE PANICS on "+call+": "+panicked)
+		rp["replay_verdict"] = "confirmed: the real function panics on this input"
+		return true
+	}
+	if ob.Kind != "post" {
+		log = append(log, "the real function did not panic on the model's input (the model may violate an axiom or a modelling assumption)")
+		return false
+	}
+	// 3. postcondition: pinned inputs + observed results must refute the clause
+	clause, ok := ri.Clauses[ob.Label]
+	if !ok || len(observed) != len(ri.Results) {
+		log = append(log, "no replay template for clause "+ob.Label)
+		return false
+	}
+	for i, r := range ri.Results {
+		switch r.T.Sort {
+		case SInt:
+			n, ok := parseBig(observed[i])
+			if !ok {
+				return false
+			}
+			pins = append(pins, fmt.Sprintf("(= %s %s)", r.T.S, smtInt(n)))
+		case SBool:
+			pins = append(pins, fmt.Sprintf("(= %s %s)", r.T.S, observed[i]))
+		case SStr:
+			bs := []byte(observed[i])
+			pins = append(pins, fmt.Sprintf("(= (str_len %s) %d)", r.T.S, len(bs)))
+			for k, c := range bs {
+				if k < 64 {
+					pins = append(pins, fmt.Sprintf("(= (str_at %s %d) %d)", r.T.S, k, c))
+				}
+			}
+		}
+	}
+	chk := &Obligation{Name: ob.Name + "/replay", Kind: "replay", Func: ob.Func, Decls: ri.Decls, Goal: tFalse, world: ob.world, ifacePreds: ob.ifacePreds}
+	chk.PC = append(chk.PC, ri.EntryPC...)
+	for _, p := range pins {
+		chk.PC = append(chk.PC, mk(SBool, p))
+	}
+	// guard: the pinned inputs and results must themselves be consistent with the entry facts,
+	// otherwise "unsat" below would say nothing about the clause
+	q0 := filepath.Join(dir, "pins.smt2")
+	os.WriteFile(q0, []byte(finalizeSMT(chk.smtText(false))), 0o644)
+	if st0, _, _ := runSolver(solvers[0], q0, 5*time.Second); st0 == "unsat" {
+		log = append(log, "the concretised inputs/results contradict the entry assumptions: replay inconclusive")
+		return false
+	}
+	chk.PC = append(chk.PC, clause)
+	q2 := filepath.Join(dir, "clause.smt2")
+	os.WriteFile(q2, []byte(finalizeSMT(chk.smtText(false))), 0o644)
+	st2, _, _ := runSolver(solvers[0], q2, 10*time.Second)
+	if st2 != "unsat" {
+		st2, _, _ = runSolver(solvers[1], q2, 10*time.Second)
+	}
+	log = append(log, fmt.Sprintf("observed results %v; clause %q with inputs and observed results pinned: %s", observed, ob.Label, st2))
+	if st2 == "unsat" {
+		rp["replay_verdict"] = fmt.Sprintf("confirmed: %s returned %v, which contradicts ensures %s", call, observed, ob.Label)
+		return true
+	}
+	return false
+}
+
+func finalizeSMT(text string) string { return text }
